@@ -127,6 +127,20 @@ def fixed_corpus():
     for (et, cap) in ((I("u32"), 4), (T("unit"), 4), (T("string"), 3), (I("u8"), 0), (I("u16"), 8)):
         roots.append({"ty": T("arrayvec", t=et, cap=cap), "vals": None, "tags": {"fixed", "arrayvec"}})
     roots.append({"ty": T("arrayvec", t=outer, cap=2), "vals": None, "tags": {"fixed", "arrayvec"}})
+    # #[savefile_ignore]d fields in every position, in named structs, tuple structs and enum variants: they occupy memory
+    # but are neither written nor described by the schema, so every recorded offset after them must still be the real one
+    def ig(name, ty):
+        return F(name, ty, kind="ignored")
+    ign = [reg(S("FixSIgnFirst", [ig("f0", I("u32")), F("f1", I("u32")), F("f2", I("u16"))], "C")),
+           reg(S("FixSIgnMid", [F("f0", I("u8")), ig("f1", I("u64")), F("f2", I("u8"))], "Rust")),
+           reg(S("FixSIgnLast", [F("f0", I("u16")), F("f1", I("u16")), ig("f2", I("u32"))], "C")),
+           reg(S("FixTIgnFirst", [ig("f0", I("u32")), F("f1", I("u32")), F("f2", I("u32"))], "C", tuple_=True)),
+           reg(S("FixTIgnMid", [F("f0", I("u16")), ig("f1", I("u32")), F("f2", I("u16"))], "Rust", tuple_=True)),
+           reg(E("FixEIgn", [V("A", [ig("x0", I("u32")), F("x1", I("u32")), F("x2", I("u32"))], named=True), V("B", [F("x0", I("u8"))])], "u8", reprc=True)),
+           reg(E("FixEIgnT", [V("A", [F("x0", I("u16")), ig("x1", I("u32")), F("x2", I("u16"))]), V("B")]))]
+    for t in ign:
+        add(t, vals=("allvariants" if t["k"] == "enum" else None), tags=("ignored",))
+        add(T("vec", t=t), vals=("vecallvariants" if t["k"] == "enum" else None), tags=("ignored", "vec"))
     return items, roots
 
 
